@@ -7,6 +7,8 @@ import (
 	"go/ast"
 	"go/types"
 	"math"
+	"os"
+	"regexp"
 	"sort"
 	"strings"
 )
@@ -31,6 +33,7 @@ type FuncResult struct {
 	UsedCons    []string
 	NoContract  []string
 	ExternNoCon []string
+	AutoFramed  []string
 	Split       string
 }
 
@@ -50,7 +53,7 @@ func (v *Verifier) newCtx(key string) (*FnCtx, error) {
 		errGlobals: map[string]bool{}, boxedScalars: map[types.Object]string{}, typeTags: map[string]bool{},
 		closureLits: map[types.Object]*ast.FuncLit{}, inModScan: map[*ast.FuncLit]bool{}, hiddenIdx: map[ast.Node]types.Object{},
 		rangeIdx: map[ast.Node]types.Object{}, rangeLen: map[ast.Node]string{}, callOrds: map[*ast.CallExpr]int{},
-		nocontract: map[string]bool{}, externNoCon: map[string]bool{}, inTrial: map[ast.Node]bool{}, iterExtra: map[ast.Node][]types.Object{}}
+		nocontract: map[string]bool{}, externNoCon: map[string]bool{}, inTrial: map[ast.Node]bool{}, iterExtra: map[ast.Node][]types.Object{}, autoFramed: map[string]bool{}, named: map[string]string{}, inlining: map[string]int{}}
 	c.nopanic = con.Flags["nopanic"]
 	c.ieee = con.Flags["ieee"]
 	c.declSeq(SStr)
@@ -115,6 +118,8 @@ func (v *Verifier) verifyFunc(key string, splitName, splitCase string, splitCond
 		return res
 	}
 	c.splitTag = splitCase
+	curCtx = c
+	defer func() { curCtx = nil }()
 	fd := c.fd
 	if fd.Body == nil {
 		res.Rejected = "no body"
@@ -202,8 +207,28 @@ func (v *Verifier) verifyFunc(key string, splitName, splitCase string, splitCond
 	for _, r := range c.con.Requires {
 		st.assume(c.specBool(env, r.Expr))
 	}
-	if splitCond != nil {
+	if splitCond != nil && pendingSplitCall == "" {
 		st.assume(c.specBool(env, splitCond.Expr))
+	}
+	if splitCond != nil && pendingSplitCall != "" {
+		c.splitAtCall = pendingSplitCall
+		// "c1 ;; c2": conditions for successive calls whose result is not already known
+		for _, part := range strings.Split(splitCond.Src, ";;") {
+			part = strings.TrimSpace(part)
+			at := pendingSplitCall
+			if strings.HasPrefix(part, "@") {
+				f := strings.SplitN(part[1:], " ", 2)
+				if len(f) == 2 {
+					at, part = f[0], strings.TrimSpace(f[1])
+				}
+			}
+			e, err := parseSpecExpr(part)
+			if err != nil {
+				c.specErr("split case: %v", err)
+				continue
+			}
+			c.splitConds = append(c.splitConds, Clause{Src: part, Expr: e, Label: at})
+		}
 	}
 	c.pre.pc = append([]string(nil), st.pc...)
 	// snapshot the pre-state heap/ghost lazily: heapGet records first use in c.pre too
@@ -269,7 +294,7 @@ func (v *Verifier) verifyFunc(key string, splitName, splitCase string, splitCond
 			pcs = append(pcs, rs.pcTerm())
 		}
 		c.addObl(&Obligation{Name: c.key + "/vacuity", Kind: "vacuity", Descr: "precondition and path assumptions are satisfiable (planted false must fail)",
-			Hyps: nil, Goal: tNot(tOr(pcs...)), Expect: "notunsat", Timeout: 3})
+			Hyps: nil, Goal: tNot(tOr(pcs...)), Expect: "notunsat", Timeout: 2, Only: []string{"z3-new"}})
 	}
 	res.Obls = c.obls
 	res.Warns = c.warns
@@ -280,16 +305,25 @@ func (v *Verifier) verifyFunc(key string, splitName, splitCase string, splitCond
 	sort.Strings(res.Assumes)
 	res.UsedCons = sortedKeys(c.usedCons)
 	res.NoContract = sortedKeys(c.nocontract)
+	res.AutoFramed = sortedKeys(c.autoFramed)
 	res.ExternNoCon = sortedKeys(c.externNoCon)
 	// build queries
 	prelude := c.prelude()
+	if os.Getenv("VCGO_STATS") != "" {
+		kinds := map[string]int{}
+		for _, o := range c.obls {
+			kinds[o.Kind]++
+		}
+		fmt.Fprintf(os.Stderr, "STATS %s %s: %d obligations %v, %d facts, prelude %d bytes, %d fresh, %d returns\n", key, splitCase, len(c.obls), kinds, len(c.facts), len(prelude), c.nfresh, len(rets))
+		return res
+	}
 	for _, o := range c.obls {
 		q := &Query{Name: o.Name, Kind: o.Kind, Func: c.key, Descr: o.Descr, Pos: o.Pos, Expect: o.Expect, Only: o.Only, Timeout: o.Timeout}
 		if q.Expect == "" {
 			q.Expect = "unsat"
 		}
 		var b strings.Builder
-		b.WriteString(prelude)
+		b.WriteString(c.preludeFor(prelude, o))
 		for _, h := range o.Hyps {
 			fmt.Fprintf(&b, "(assert %s)\n", h)
 		}
@@ -299,6 +333,8 @@ func (v *Verifier) verifyFunc(key string, splitName, splitCase string, splitCond
 		}
 		q.Text = b.String()
 		q.obl = o
+		o.Hyps = nil
+		q.spill()
 		res.Queries = append(res.Queries, q)
 	}
 	return res
@@ -312,7 +348,7 @@ func (v *Verifier) verifyLemma(ax *Axiom) *FuncResult {
 		entry: map[string]*Val{}, loopOrd: map[ast.Node]int{}, assumes: map[string]bool{}, lits: map[string]string{},
 		inputs: map[string]string{}, usedCons: map[string]bool{}, labels: map[string]int{}, nObl: map[string]int{},
 		errGlobals: map[string]bool{}, boxedScalars: map[types.Object]string{}, typeTags: map[string]bool{},
-		nocontract: map[string]bool{}, externNoCon: map[string]bool{}, inTrial: map[ast.Node]bool{}, iterExtra: map[ast.Node][]types.Object{}}
+		nocontract: map[string]bool{}, externNoCon: map[string]bool{}, inTrial: map[ast.Node]bool{}, iterExtra: map[ast.Node][]types.Object{}, autoFramed: map[string]bool{}, named: map[string]string{}, inlining: map[string]int{}}
 	if len(c.con.Lemmas) == 0 {
 		c.con.Lemmas = []string{"-none-"}
 	}
@@ -417,6 +453,9 @@ func (c *FnCtx) frameObligations(rs *State, ri int) {
 		}
 	}
 	keys := sortedKeys(rs.heap)
+	if c.con.Flags["frame-by-effects"] {
+		keys = nil // the heap frame of this function is the inferred one; only ghosts are checked here
+	}
 	for _, k := range keys {
 		cur := rs.heap[k]
 		pre, ok := c.pre.heap[k]
@@ -524,6 +563,7 @@ func (c *FnCtx) prelude() string {
 	for _, a := range axs {
 		b.WriteString(a + "\n")
 	}
+	b.WriteString("; ---facts---\n")
 	for _, f := range c.facts {
 		fmt.Fprintf(&b, "(assert %s)\n", f)
 	}
@@ -583,4 +623,82 @@ func (c *FnCtx) syntacticPurity() string {
 		return true
 	})
 	return why
+}
+
+var reSym = regexp.MustCompile(`[A-Za-z_][A-Za-z0-9_.]*![0-9]+`)
+
+// preludeFor drops the definitional facts about fresh constants the obligation cannot depend on
+// (cone of influence over the `name!N` symbols); declarations, axioms and literal facts are kept.
+func (c *FnCtx) preludeFor(prelude string, o *Obligation) string {
+	if len(c.facts) < 200 {
+		return prelude
+	}
+	if c.factSyms == nil {
+		c.factSyms = make([][]string, len(c.facts))
+		c.symFacts = map[string][]int{}
+		for i, f := range c.facts {
+			syms := uniq(reSym.FindAllString(f, -1))
+			c.factSyms[i] = syms
+			for _, s := range syms {
+				c.symFacts[s] = append(c.symFacts[s], i)
+			}
+		}
+		// split the prelude once: head (declarations + axioms) and the facts part
+		marker := "; ---facts---\n"
+		if i := strings.Index(prelude, marker); i >= 0 {
+			c.preludeHead = prelude[:i]
+		} else {
+			c.preludeHead = prelude
+		}
+	}
+	seen := map[string]bool{}
+	var work []string
+	add := func(t string) {
+		for _, s := range reSym.FindAllString(t, -1) {
+			if !seen[s] {
+				seen[s] = true
+				work = append(work, s)
+			}
+		}
+	}
+	for _, h := range o.Hyps {
+		add(h)
+	}
+	add(o.Goal)
+	keep := map[int]bool{}
+	for len(work) > 0 {
+		s := work[len(work)-1]
+		work = work[:len(work)-1]
+		for _, fi := range c.symFacts[s] {
+			if !keep[fi] {
+				keep[fi] = true
+				for _, s2 := range c.factSyms[fi] {
+					if !seen[s2] {
+						seen[s2] = true
+						work = append(work, s2)
+					}
+				}
+			}
+		}
+	}
+	var b strings.Builder
+	b.WriteString(c.preludeHead)
+	for i, f := range c.facts {
+		if keep[i] || len(c.factSyms[i]) == 0 {
+			fmt.Fprintf(&b, "(assert %s)\n", f)
+		}
+	}
+	return b.String()
+}
+
+func uniq(xs []string) []string {
+	m := map[string]bool{}
+	var out []string
+	for _, x := range xs {
+		if !m[x] {
+			m[x] = true
+			out = append(out, x)
+		}
+	}
+	return out
 }
